@@ -349,8 +349,8 @@ func (e *env) heldRecs() map[uint64]*opRec {
 func (e *env) matchPrefix(items []cutItem, minK int, what string, last *[2]uint64, prop string) bool {
 	impl := e.implSnapshot()
 	implHeld := map[uint64]bool{}
-	for _, p := range e.srv.VerifRIB().VerifPending() {
-		implHeld[p.ID] = true
+	for _, id := range e.implHeldIDs() {
+		implHeld[id] = true
 	}
 	id, _ := e.srv.VerifElection()
 	var implMax [2]uint64
